@@ -131,9 +131,10 @@ def check_parser(rep, repo):
     counts = ("idx", ("call", ("mod", "numpy.unique"), (Yt,), (("return_counts", ("const", True)),)), ("const", 1))
     n = ("call", ("builtin", "len"), (counts,), ())
     mx = [("bin", "+", *sorted([("const", 1), ("call", ("mod", f), (Yt,), ())], key=repr)) for f in ("numpy.max", "numpy.amax")]
-    okr = any(has_guard(e.guards, ("cmp", "!=", *sorted([n, m], key=repr))) for e in raises for m in mx)
+    from ..ir import facts
+    okr = any(facts(e.guards) == (("cmp", "!=", *sorted([n, m], key=repr)),) for e in raises for m in mx)
     rep.fn("PARSE-sequential", fi, "non-sequential labels are rejected", okr,
-           "expected a raise under len(distinct labels) != max(label) + 1")
+           "expected a raise exactly under len(distinct labels) != max(label) + 1 (no further condition)")
     if rets and raises:
         rep.ev("PARSE-order", rets[0], all(r.seq < rets[0].seq for r in raises), "the check must precede the return")
 
@@ -292,6 +293,10 @@ def check(chk, repo):
     check_merge(rep, repo)
     check_parser(rep, repo)
     check_converters(rep, repo)
+    for modname in (SPLIT, LOADER, PARSER, CONV):
+        for fi in repo.module(modname).functions.values():
+            rep.fn("STREAM-undecorated", fi, f"{fi.name} is a plain function", not fi.decorators,
+                   f"{fi.name} is wrapped by {fi.decorators}: cached or altered results are not a function of the file / arguments")
     chk.floor("converters analysed", 3, 3)
     chk.undecided.append("float32 exactness of the text/JSON round trip (np.savetxt '%.18e' and json repr are exact; library behaviour)")
     chk.assumptions.append("np.random.permutation after np.random.seed(s) is a deterministic function of s")
